@@ -361,9 +361,29 @@ func (c *connectionRequest) Server() RegisteredServer {
 }
 
 func (c *connectionRequest) checkServer(server RegisteredServer) (s ConnectionStatus, ok bool) {
+	c.player.mu.RLock()
+	defer c.player.mu.RUnlock()
+	return c.checkServerLocked(server)
+}
+
+// trySetInFlightConnection claims the in-flight slot for conn if, and only if, a connection
+// request to server is (still) allowed. The check and the claim happen in one critical section:
+// with separate ones two concurrent requests could both pass the check and both connect.
+func (c *connectionRequest) trySetInFlightConnection(server RegisteredServer, conn *serverConnection) (s ConnectionStatus, ok bool) {
 	p := c.player
-	p.mu.RLock()
-	defer p.mu.RUnlock()
+	p.mu.Lock()
+	defer p.mu.Unlock()
+	if s, ok = c.checkServerLocked(server); !ok {
+		return s, false
+	}
+	verifhook.Event("sw.setInFlight", "player", p.profile.Name, "server", conn.verifName(), "had", p.connInFlight.verifName())
+	p.connInFlight = conn
+	return 0, true
+}
+
+// checkServerLocked requires the player's mutex to be held.
+func (c *connectionRequest) checkServerLocked(server RegisteredServer) (s ConnectionStatus, ok bool) {
+	p := c.player
 	if p.connInFlight != nil || (p.connectedServer_ != nil &&
 		!p.connectedServer_.completedJoin.Load()) {
 		verifhook.Event("sw.check", "player", p.profile.Name, "server", server.ServerInfo().Name(), "res", "inprogress")
@@ -409,7 +429,9 @@ func (c *connectionRequest) internalConnect(ctx context.Context) (result *connec
 
 	verifhook.Point("sw.checked", "player", c.player.profile.Name, "server", server.info.Name())
 	conn := newServerConnection(server, c.previousServer, c.player)
-	c.player.setInFlightConnection(conn)
+	if status, ok = c.trySetInFlightConnection(newDest, conn); !ok {
+		return plainConnectionResult(status, newDest), nil
+	}
 	defer c.resetIfInFlightIs(conn)
 	return conn.connect(ctx)
 }
